@@ -7,6 +7,8 @@ mod refmodel;
 #[cfg(kani)]
 mod c01;
 #[cfg(kani)]
+mod c03;
+#[cfg(kani)]
 mod c04;
 #[cfg(kani)]
 mod c17;
